@@ -1479,6 +1479,43 @@ func (m *Matcher) sizeFieldOwner(fr *frame, sel *ast.SelectorExpr) (string, bool
 				}
 				return true
 			})
+			if found == "" {
+				// the same relation established by a constructor literal: &T{Size: len(words), M: words}
+				ast.Inspect(fi.Decl.Body, func(k ast.Node) bool {
+					cl, ok := k.(*ast.CompositeLit)
+					if !ok || found != "" {
+						return true
+					}
+					if ct := namedOfType(fi.Pkg.TypesInfo.TypeOf(cl)); ct == nil || ct.Obj() != n.Obj() {
+						return true
+					}
+					lenOf := ""
+					for _, el := range cl.Elts {
+						kv, ok := el.(*ast.KeyValueExpr)
+						if !ok {
+							continue
+						}
+						if kid, ok := kv.Key.(*ast.Ident); ok && kid.Name == sel.Sel.Name {
+							if call, ok := ast.Unparen(kv.Value).(*ast.CallExpr); ok && len(call.Args) == 1 {
+								if id, ok := call.Fun.(*ast.Ident); ok && id.Name == "len" {
+									lenOf = types.ExprString(call.Args[0])
+								}
+							}
+						}
+					}
+					if lenOf == "" {
+						return true
+					}
+					for _, el := range cl.Elts {
+						if kv, ok := el.(*ast.KeyValueExpr); ok {
+							if kid, ok := kv.Key.(*ast.Ident); ok && kid.Name != sel.Sel.Name && types.ExprString(kv.Value) == lenOf {
+								found = kid.Name
+							}
+						}
+					}
+					return true
+				})
+			}
 			if found != "" {
 				return base + "." + found, true
 			}
@@ -2788,4 +2825,15 @@ func (m *Matcher) flattenTableWalk(l *Loop, fr *frame) *Loop {
 	f := &Loop{Pos: l.Pos, Stmt: inner.Stmt, Body: inner.Body, Fn: l.Fn, AllOf: sel.X}
 	m.flat[l] = f
 	return f
+}
+
+func namedOfType(t types.Type) *types.Named {
+	if t == nil {
+		return nil
+	}
+	if pt, ok := t.(*types.Pointer); ok {
+		t = pt.Elem()
+	}
+	n, _ := t.(*types.Named)
+	return n
 }
